@@ -72,7 +72,7 @@ FAMILIES = {
     "STATS": dict(
         mc=("MC_Stats", "MC_Stats.cfg", {"quick": {"MaxDepth": "2", "StatSet": '"small"'}, "thorough": {"MaxDepth": "3", "StatSet": '"full"'}}),
         gens=[("Gen_Stats", "Gen_Stats.cfg", "bfs", {t: dict(depth=1, consts={"GenSet": '"%s"' % gs, "StatSet": ss}) for t, ss in (("quick", '"small"'), ("thorough", '"full"'))})
-              for gs in ("empty", "one", "mixed", "seeded")]
+              for gs in ("empty", "one", "mixed", "seeded", "big", "prefix")]
              + [("Gen_Stats", "Gen_Stats.cfg", "sim", {"quick": dict(num=3, depth=12, consts={"StatSet": '"small"'}, seeds=1),
                                                      "thorough": dict(num=20, depth=30, consts={"StatSet": '"full"'}, seeds=3)})],
         replays=[dict(mode="app", controls="", swap=False)]),
@@ -314,6 +314,14 @@ def attribute(prop, recs, evs, behs_by_id, wd, specdir, report, tier="quick"):
         path = os.path.join(WORK, "replay", "%s-%s.json" % (prop, sig[:10]))
         json.dump(rp, open(path, "w"), indent=1)
         ok = do_replay(path, quiet=True)
+        if ok is not True:
+            # the violation may depend on what the same PROCESS executed before (state kept in Go
+            # objects rather than in the chain state): retry with the preceding behaviours as context
+            order = list(behs_by_id)
+            idx = order.index(r["b"])
+            rp["context"] = [behs_by_id[x][0] for x in order[max(0, idx - 4000):idx] if behs_by_id[x][1] is R]
+            json.dump(rp, open(path, "w"))
+            ok = do_replay(path, quiet=True)
         if ok is True:
             violations.append((path, r, ev))
         else:
@@ -328,10 +336,10 @@ def do_replay(path, quiet=False):
     os.makedirs(wd, exist_ok=True)
     try:
         specdir = prep_spec(wd)
-        trace, _ = replay([rp["behaviour"]], wd, "replay", mode=rp["mode"], controls=rp["controls"], extra=rp.get("extra"))
+        trace, _ = replay(rp.get("context", []) + [rp["behaviour"]], wd, "replay", mode=rp["mode"], controls=rp["controls"], extra=rp.get("extra"))
         if rp.get("repeat", 1) > 1:
             # a non-determinism may need several attempts to show again
-            attach_peers(trace, [rp["behaviour"]], wd, "replay", rp, max(4, rp["repeat"]))
+            attach_peers(trace, rp.get("context", []) + [rp["behaviour"]], wd, "replay", rp, max(4, rp["repeat"]))
         recs, evs, _ = validate(specdir, trace, rp.get("swap", False), parallel=1)
         last = recs[-1]
         hit = bool(set(PROPS.get(rp["property"], {}).get("props", [rp["property"]])) & set(last["viol"]))
